@@ -55,21 +55,29 @@ theorem loop_order {b0 : List Nat} {rounds : List Round} {r : Nat} {batch : List
   induction rounds generalizing r batch st with
   | nil => simp [loop] at h
   | cons rd rest ih =>
-    have hq : ∀ r' k cs, Event.queue r' k cs ∈ queueEvents r rd batch → Before c d cs := by
-      intro r' k cs hm
-      simp only [queueEvents, List.mem_map] at hm
-      obtain ⟨g, hg, heq⟩ := hm
-      cases heq
-      exact before_group hbef hg
+    -- the calls the round keeps (`liveCalls`) are a sublist of the round's batch
+    have hbefL : Before c d (liveCalls rd batch) := by
+      intro hc hd
+      exact pair_sublist_filter (hbef (liveCalls_sub hc) (liveCalls_sub hd))
+        (by simp [(mem_liveCalls.mp hc).2]) (by simp [(mem_liveCalls.mp hd).2])
     rcases loop_cons h with ⟨_, rfl⟩ | ⟨_, a, ha, hcase⟩
     · exact ⟨[], by simp, fun _ _ _ hm => by cases hm⟩
-    · rcases hcase with ⟨tail, rfl, htail, _⟩ | ⟨_, hnd, bo, imm, tail, htail, hrec⟩
-      · refine ⟨queueEvents r rd batch ++ tail, by simp [List.append_assoc], ?_⟩
+    · revert ha hcase hbefL
+      generalize afterLocate b0 rd batch st = st', liveCalls rd batch = live
+      intro hbef ha hcase
+      have hq : ∀ r' k cs, Event.queue r' k cs ∈ queueEvents r rd live → Before c d cs := by
+        intro r' k cs hm
+        simp only [queueEvents, List.mem_map] at hm
+        obtain ⟨g, hg, heq⟩ := hm
+        cases heq
+        exact before_group hbef hg
+      rcases hcase with ⟨tail, rfl, htail, _⟩ | ⟨_, hnd, bo, imm, tail, htail, hrec⟩
+      · refine ⟨queueEvents r rd live ++ tail, by simp [List.append_assoc], ?_⟩
         intro r' k cs hm
         rcases List.mem_append.mp hm with hm | hm
         · exact hq r' k cs hm
         · have := htail _ hm; simp [isSleepCut] at this
-      · -- not interrupted: every call of the batch was handled, in wait order
+      · -- not interrupted: every call of the live was handled, in wait order
         have hint : a.interrupted = false := by
           rw [cancelPos_none_of_not_done hnd] at ha
           exact waitAll_no_cancel ha rfl
@@ -83,8 +91,8 @@ theorem loop_order {b0 : List Nat} {rounds : List Round} {r : Nat} {batch : List
           rw [hret'] at hc hd ⊢
           obtain ⟨hcp, hcr⟩ := List.mem_filter.mp hc
           obtain ⟨hdp, hdr⟩ := List.mem_filter.mp hd
-          have hcb : c ∈ batch := mem_groups_flat.mp (hf ▸ hcp)
-          have hdb : d ∈ batch := mem_groups_flat.mp (hf ▸ hdp)
+          have hcb : c ∈ live := mem_groups_flat.mp (hf ▸ hcp)
+          have hdb : d ∈ live := mem_groups_flat.mp (hf ▸ hdp)
           -- both are in the group of their common client
           obtain ⟨g, hg, hcg⟩ := List.mem_flatMap.mp (mem_groups_flat.mpr hcb)
           have hk := ((mem_group_iff hg).mp hcg).2
@@ -94,7 +102,7 @@ theorem loop_order {b0 : List Nat} {rounds : List Round} {r : Nat} {batch : List
             rw [← hf]; exact (before_group hbef hg hcg hdg).trans (group_sublist_flat hg)
           exact pair_sublist_filter h1 hcr hdr
         obtain ⟨new, hev, hnew⟩ := ih hrec hbef' (fun x hx => hsame x (List.mem_cons_of_mem _ hx))
-        refine ⟨queueEvents r rd batch ++ tail ++ new, by rw [hev]; simp [List.append_assoc], ?_⟩
+        refine ⟨queueEvents r rd live ++ tail ++ new, by rw [hev]; simp [List.append_assoc], ?_⟩
         intro r' k cs hm
         rcases List.mem_append.mp hm with hm | hm
         · rcases List.mem_append.mp hm with hm | hm
